@@ -1,7 +1,7 @@
 (* C02 -- TrueType outlines render the source shape; composites stay valid. *)
 From Coq Require Import QArith Qcanon.
 From U2F Require Import Base.Prelude Geometry.Model Geometry.ModelProofs Geometry.Cff Geometry.Filters
-     Geometry.FiltersProofs Geometry.TT Geometry.TTProofs Geometry.FlattenProofs.
+     Geometry.FiltersProofs Geometry.TT Geometry.TTProofs Geometry.FlattenProofs Geometry.TTRenderProofs.
 Open Scope Qc_scope.
 
 (* glyphs mixing contours with components are decomposed: none is left *)
@@ -44,3 +44,15 @@ Theorem C02_flattening_preserves_rendering : forall gs g g',
   forall F r, resolve F gs g = Some r -> resolve F gs g' = Some r.
 Proof. exact flatten_render. Qed.
 Print Assumptions C02_flattening_preserves_rendering.
+
+(* THE PIPELINE: with plain reversal (convertCubics = False) TrueType pre-processing -- mixed glyphs decomposed,
+   nested references flattened on request, every contour reversed -- leaves a glyph set in which every glyph renders
+   exactly what it renders in the source, contour for contour, each contour reversed; all glyph sets with
+   non-singular component matrices and closed contours *)
+Theorem C02_preprocessed_glyphs_render_the_source_reversed : forall flatten gs gs',
+  wf_glyphset_P gs -> tt_pre flatten false gs = Some gs' ->
+  forall n g, assoc n gs = Some g ->
+    exists g', assoc n gs' = Some g' /\
+      forall F r, resolve F gs g = Some r -> resolve F gs' g' = Some (map rev_contour r).
+Proof. exact tt_pre_renders_reversed. Qed.
+Print Assumptions C02_preprocessed_glyphs_render_the_source_reversed.
